@@ -421,6 +421,8 @@ def n_cfgkey2name_spec(keyid: int):
     for name, (kid, typ) in db.items():
         if kid == keyid:
             return (name, typ)
+    if keyid >= (1 << 31):
+        raise KeyError("reserved bit 31 set")
     return ("CFG_" + hex(keyid), "X%03d" % stor[(keyid >> 28) & 7])
 
 
@@ -445,14 +447,14 @@ def s_cfgkey2name_spec(ex, keyid):
         if st.branch(mk_bool(z3.Or(*[k == kid for kid in bytype[typ]]))):
             return (SStr(("CFG_", Opaque("dbname"))), typ)
     for code, size in sorted(stor.items()):
-        if st.branch(mk_bool((k / (1 << 28)) % 8 == code)):
+        if st.branch(mk_bool(z3.And(k < (1 << 31), (k / (1 << 28)) % 8 == code))):
             return (SStr(("CFG_", HexInt(k))), "X%03d" % size)
     ex.bm.raise_(KeyError, "size code")
 
 
 def n_cfg_sizecode_invalid(keyid: int) -> bool:
     db, stor = _cfgdb()
-    return keyid not in {k for k, _ in db.values()} and ((keyid >> 28) & 7) not in stor
+    return keyid not in {k for k, _ in db.values()} and (keyid >= (1 << 31) or ((keyid >> 28) & 7) not in stor)
 
 
 def s_cfg_sizecode_invalid(ex, keyid):
@@ -462,7 +464,7 @@ def s_cfg_sizecode_invalid(ex, keyid):
     k = zint(keyid)
     kids = sorted({kid for kid, _ in db.values()})
     return mk_bool(z3.And(z3.And(*[k != kid for kid in kids]),
-                          z3.And(*[(k / (1 << 28)) % 8 != code for code in stor])))
+                          z3.Or(k >= (1 << 31), z3.And(*[(k / (1 << 28)) % 8 != code for code in stor]))))
 
 
 def n_cfgname2key_spec(name):
@@ -506,7 +508,51 @@ def n_fits_float32(v):
         return False
 
 
+def n_msgname_spec(cls_name: str, msg_name: str):
+    """class and ID bytes of a message addressed by names: the entries of the class table and the message-ID table"""
+    from pvc import extract
+    core = extract.load_module("pyubx2.ubxtypes_core")[0]
+    c = [k for k, v in core.UBX_CLASSES.items() if v == cls_name][0]
+    i = [k for k, v in core.UBX_MSGIDS.items() if v == msg_name][0]
+    return (c, i[1:2])
+
+
+def n_u16le_bytes(v: int) -> bytes:
+    return bytes((v % 256, v // 256))
+
+
+def s_u16le_bytes(ex, v):
+    if isinstance(v, int):
+        return n_u16le_bytes(v)
+    vz = zint(v)
+    return SBytes.cells([vz % 256, vz / 256])
+
+
+def s_packf(ex, val, n):
+    """struct.pack('<f'|'<d', val) as a function of the float (uninterpreted bytes; binary64 round-trips)"""
+    from pvc.builtins_model import PACKF
+    from pvc.values import SFloat, i2f, fconst, unpack_f
+    if isinstance(val, float):
+        import struct
+        return struct.pack("<f" if n == 4 else "<d", val)
+    fe = val.e if isinstance(val, SFloat) else i2f(zint(val))
+    cells = [PACKF(z3.IntVal(n), fe, z3.IntVal(j)) for j in range(n)]
+    for c in cells:
+        ex.st.assume(mk_bool(z3.And(c >= 0, c <= 255)))
+    if n == 8:
+        ex.st.assume(mk_bool(unpack_f(z3.IntVal(8), z3.Sum([c * (1 << (8 * i)) for i, c in enumerate(cells)])) == fe))
+    return SBytes.cells(cells)
+
+
+def n_packf(val, n):
+    import struct
+    return struct.pack("<f" if n == 4 else "<d", float(val))
+
+
 def install(reg):
+    reg.spec("packf", s_packf, n_packf)
+    reg.spec("msgname_spec", lambda ex, a, b: n_msgname_spec(a, b), n_msgname_spec)
+    reg.spec("u16le_bytes", s_u16le_bytes, n_u16le_bytes)
     reg.spec("fits_float32", s_fits_float32, n_fits_float32)
     reg.spec("snapshot", s_snapshot, None)
     reg.spec("cfg_sizecode_invalid", s_cfg_sizecode_invalid, n_cfg_sizecode_invalid)
